@@ -223,6 +223,17 @@ func FindSame(o *Outcome, v Violation) *Violation {
 	return nil
 }
 
+// SafeExec runs e.Exec and turns a panic of the harness/engine code itself
+// into an infrastructure outcome (never a violation).
+func SafeExec(e Engine, sc interface{}, opt ExecOpts) (o *Outcome) {
+	defer func() {
+		if r := recover(); r != nil {
+			o = &Outcome{Infra: fmt.Sprintf("engine panicked: %v", r)}
+		}
+	}()
+	return e.Exec(sc, opt)
+}
+
 // Minimise shrinks (scenario, schedule) while the same violation recurs.
 // budget bounds the number of executions.
 func Minimise(e Engine, sc interface{}, v Violation, first *Outcome, budget int) (interface{}, *Outcome, int) {
@@ -245,7 +256,7 @@ func Minimise(e Engine, sc interface{}, v Violation, first *Outcome, budget int)
 					c = e.Reseed(cand, uint64(k))
 				}
 				used++
-				o := e.Exec(c, ExecOpts{})
+				o := SafeExec(e, c, ExecOpts{})
 				if o.Infra == "" && FindSame(o, v) != nil {
 					best, bestOut = c, o
 					improved = true
@@ -260,7 +271,7 @@ func Minimise(e Engine, sc interface{}, v Violation, first *Outcome, budget int)
 	// schedule minimisation: drop recorded decisions while it still fails
 	dec := append([]simrt.Decision(nil), bestOut.Decisions...)
 	if len(dec) > 0 {
-		o := e.Exec(best, ExecOpts{Schedule: dec, UseSched: true})
+		o := SafeExec(e, best, ExecOpts{Schedule: dec, UseSched: true})
 		used++
 		if o.Infra == "" && FindSame(o, v) != nil {
 			n := 2
@@ -274,7 +285,7 @@ func Minimise(e Engine, sc interface{}, v Violation, first *Outcome, budget int)
 					}
 					cand := append(append([]simrt.Decision(nil), dec[:start]...), dec[end:]...)
 					used++
-					o2 := e.Exec(best, ExecOpts{Schedule: cand, UseSched: true})
+					o2 := SafeExec(e, best, ExecOpts{Schedule: cand, UseSched: true})
 					if o2.Infra == "" && FindSame(o2, v) != nil {
 						dec = cand
 						o = o2
